@@ -130,6 +130,12 @@ example : (Expr.and (.cmp .ge (.field b!"age") (.num b!"18")) (.strop .startsWit
 example : (Expr.and (.cmp .ge (.field b!"age") (.num b!"18")) (.strop .startsWith (.field b!"name") b!"J")).text =
     b!"age >= 18 AND name STARTS_WITH \"J\"" := by decide
 
+/-- parentheses the grammar does not need are allowed anywhere (`Expr.group`): the README's
+    `(status == "active" AND age >= 18) OR role == "admin"` is the tight text of such an expression -/
+example : (Expr.or (.group (.and (.cmp .eq (.field b!"status") (.str b!"active")) (.cmp .ge (.field b!"age") (.num b!"18"))))
+      (.cmp .eq (.field b!"role") (.str b!"admin"))).tightText =
+    b!"(status==\"active\"AND age>=18)OR role==\"admin\"" := by decide
+
 /-- the tight text of a nested-path expression has no spaces around `.`, `[`, `]` -/
 example : (Expr.and (.cmp .eq (.dot (.field b!"user") b!"name") (.str b!"x")) (.cmp .ge (.index (.field b!"tags") b!"0") (.num b!"2"))).tightText =
     b!"user.name==\"x\"AND tags[0]>=2" := by decide
